@@ -140,6 +140,10 @@ class Info:
     def level(self, depth):
         return [self.objs[i] for i in self.levels.get(depth, [])]
 
+    def has_cpuless(self):
+        return any(o["cs"] is not None and o["cs"].is_empty() and o["nds"] is not None and not o["nds"].is_empty()
+                   for o in self.objs.values())
+
     def npus(self):
         return len(self.levels.get(self.depth - 1, []))
 
@@ -195,6 +199,26 @@ def range_text(r):
     if k == "wrap":
         return "%d:%d" % (r[1], r[2])
     return k
+
+
+def gen_mem_path(rng, info):
+    """a nested chain whose last level is the NUMA level: parent:i[.child:j].numa:range"""
+    normal = [(d, t) for d, t in info.usable_levels() if d >= 0]
+    k = rng.choice([1, 1, 2])
+    parents = sorted(rng.sample(normal, min(k, len(normal))))
+    steps = []
+    for d, ty in parents:
+        w = len(info.levels.get(d, []))
+        if steps:
+            w = max(1, w // max(1, len(info.levels.get(steps[0][0], []))))
+        r = rng.random()
+        rg = ("one", rng.randrange(max(w, 1))) if r < 0.6 else ("all",) if r < 0.8 else gen_range(rng, w)
+        steps.append((d, ty, type_spelling(rng, info, d, ty), rg))
+    r = rng.random()
+    nn = max(1, len(info.levels.get(-3, [])))
+    rg = ("all",) if r < 0.5 else ("one", rng.randrange(min(nn, 3))) if r < 0.8 else gen_range(rng, min(nn, 4))
+    steps.append((-3, 14, type_spelling(rng, info, -3, 14), rg))
+    return steps
 
 
 def gen_path(rng, info, deeper_only=True):
@@ -272,7 +296,7 @@ def gen_set_arg(rng, info, nodeset, fmt=None):
 FORMATS = ["hwloc", "list", "taskset"]
 
 
-def gen_cmdline(rng, info, spec_only=False):
+def gen_cmdline(rng, info, spec_only=False, mem=False):
     """A structured hwloc-calc command line after the -i option.  Returns a dict:
        args: list of strings; ast: list of items in order (("opt", name[, value]) | ("loc", mode, kind, payload))
        out: the output mode."""
@@ -284,6 +308,10 @@ def gen_cmdline(rng, info, spec_only=False):
     for o in ["-p", "--pi", "--po", "-l", "-n", "--ni", "--no", "-q"]:
         if rng.random() < (0.10 if o != "-q" else 0.3):
             pre.append(("opt", o))
+    has_numa = bool(info.levels.get(-3))
+    mem = mem and has_numa
+    if mem and not any(o[1] in ("-n", "--no") for o in pre) and rng.random() < 0.6:
+        pre.append(("opt", rng.choice(["-n", "--no", "--no"])))
     cif = None
     if rng.random() < 0.15:
         cif = rng.choice(FORMATS)
@@ -293,6 +321,8 @@ def gen_cmdline(rng, info, spec_only=False):
         r = rng.random()
         if r < 0.12:
             locs.append(("loc", mode, "all", rng.choice(["all", "root"])))
+        elif mem and r < 0.65:
+            locs.append(("loc", mode, "path", gen_mem_path(rng, info)))
         elif r < 0.78:
             locs.append(("loc", mode, "path", gen_path(rng, info, deeper_only=spec_only or rng.random() < 0.8)))
         else:
@@ -302,7 +332,9 @@ def gen_cmdline(rng, info, spec_only=False):
     out = ("set",)
     r = rng.random()
     lv = info.usable_levels()
-    if r < 0.14:
+    if mem and r < 0.45:
+        out = (rng.choice(["I", "N"]), type_spelling(rng, info, -3, 14), -3)
+    elif r < 0.14:
         out = ("largest",)
     elif r < 0.28:
         d, ty = rng.choice(lv)
